@@ -315,3 +315,46 @@ func goNativeClass(r *rng, v interface{}, cls string) interface{} {
 	}
 	return v
 }
+
+// exoticString: legal strings of the kinds ordinary examples never contain: control characters, DEL, the replacement
+// character inside a longer string, non-characters and unassigned astral code points, combining marks, two-, three- and
+// four-byte characters, long runs, strings of exactly 16/32/64/256 characters, picture- and pattern-like texts with
+// characters outside ASCII in every position.
+func exoticString(r *rng) string {
+	units := []string{"\x01", "\x07", "\x0b", "\x1b", "\x7f", "\u0085", "\u00a0", "\u2028", "\ufffd", "\U000E0001", "\U0010FFFF", "e\u0301", "é", "ß", "日", "本", "😀", "👨\u200d👩", "Ａ", "ﬁ", "𐍈",
+		"a", "z", "0", " ", ",", "\"", "\\", "/", "%", "$", "[", "]", "#", ";", "."}
+	switch r.intn(8) {
+	case 0:
+		return units[r.intn(len(units))]
+	case 1:
+		n := []int{15, 16, 17, 31, 32, 33, 63, 64, 65, 255, 256, 257, 1000}[r.intn(13)]
+		u := units[r.intn(len(units))]
+		return strings.Repeat(u, n)
+	case 2:
+		// a picture or pattern with one foreign character put in
+		base := []string{"[Y0001]-[M01]-[D01]", "[H01]:[m01]:[s01] [Z]", "[D1o] [MNn] [Y]", "[Y]", "[F]", "#,##0.00", "0.0e0", "00%", "#0;(#0)", "w", "I", "A", "#,##0", "1", "[Y,2]", "[M01]/[D01]"}[r.intn(16)]
+		rs := []rune(base)
+		i := r.intn(len(rs) + 1)
+		u := units[r.intn(len(units))]
+		if r.chance(1, 2) && i < len(rs) {
+			return string(rs[:i]) + u + string(rs[i+1:])
+		}
+		return string(rs[:i]) + u + string(rs[i:])
+	case 3:
+		return "[" + units[r.intn(len(units))] + []string{"", "01", ",3", "n", "1o"}[r.intn(5)] + "]"
+	default:
+		var b strings.Builder
+		for i, n := 0, 1+r.intn(7); i < n; i++ {
+			b.WriteString(units[r.intn(len(units))])
+		}
+		return b.String()
+	}
+}
+
+// strLit: a JSONata string literal denoting s (JSON escapes are JSONata escapes).
+func strLit(s string) string {
+	b, _ := json.Marshal(s)
+	out := string(b)
+	// encoding/json escapes <, > and & as \u003c...: fine for JSONata as well
+	return out
+}
